@@ -51,7 +51,8 @@ func ctxFor(m string) pongo2.Context {
 		"pts": []ptrStringerT{{m}, {"y"}},
 		"pp":  &pholder{T: ptrStringerT{m}},
 		// a value Go code marked safe (its own markup), to be combined with tainted text
-		"sv": pongo2.AsSafeValue("<u>"),
+		"sv":  pongo2.AsSafeValue("<u>"),
+		"svl": []*pongo2.Value{pongo2.AsSafeValue("<u>"), pongo2.AsSafeValue("<b>")},
 	}
 }
 
@@ -210,6 +211,16 @@ func carriers() []carrier {
 		}},
 		{"concat-go-safe-left", func(g *gen, e string, in func(string) string) string { return in("(sv + " + e + ")") }},
 		{"concat-go-safe-right", func(g *gen, e string, in func(string) string) string { return in("(" + e + " + sv)") }},
+		// an explicit escape earlier in the chain does not make what later filters bring in safe
+		{"escape-then-default-arg", func(g *gen, e string, in func(string) string) string { return in("e|escape|default:" + atom(e)) }},
+		{"escape-then-add-arg", func(g *gen, e string, in func(string) string) string { return in(`"z"|escape|add:` + atom(e)) }},
+		{"escape-then-join-arg", func(g *gen, e string, in func(string) string) string { return in(`"ab"|escape|join:` + atom(e)) }},
+		// a list of legitimately safe items joined with a tainted separator
+		{"join-safe-items-arg", func(g *gen, e string, in func(string) string) string {
+			m := g.name("sm")
+			return "{% macro " + m + "() %}<i>{% endmacro %}" + in("["+m+"(), "+m+"()]|join:"+atom(e))
+		}},
+		{"join-go-safe-items-arg", func(g *gen, e string, in func(string) string) string { return in("svl|join:" + atom(e)) }},
 		{"default-arg", func(g *gen, e string, in func(string) string) string { return in("e|default:" + atom(e)) }},
 		{"add-arg", func(g *gen, e string, in func(string) string) string { return in(`"z"|add:` + atom(e)) }},
 		{"join-arg", func(g *gen, e string, in func(string) string) string { return in("l|join:" + atom(e)) }},
